@@ -131,13 +131,18 @@ func c20One(r *rt.Rec, text string, memo bool, chanSize, bulk int) {
 		if streaming(calls[k-1].Method) {
 			afters = append(afters, -1) // deliver one element, close the channel, return the error late
 		}
+		if m := calls[k-1].Method; k == 1 || m == "Graph.AddTriples" || m == "Graph.RemoveTriples" {
+			afters = append(afters, -2) // this call and every later one fail (the driver has gone away)
+		}
 		for _, after := range afters {
 			plan := fault.Plan{K: k, After: after}
-			if after < 0 {
+			if after == -1 {
 				plan = fault.Plan{K: k, After: 1, Late: true}
+			} else if after == -2 {
+				plan = fault.Plan{From: k}
 			}
 			fs, st := mk(plan)
-			desc := fmt.Sprintf("[%s k=%d/%d %s after=%d late=%v chan=%d bulk=%d] %s", variant, k, len(calls), calls[k-1].Method, plan.After, plan.Late, chanSize, bulk, text)
+			desc := fmt.Sprintf("[%s k=%d/%d %s after=%d late=%v from-here-on=%v chan=%d bulk=%d] %s", variant, k, len(calls), calls[k-1].Method, plan.After, plan.Late, plan.From > 0, chanSize, bulk, text)
 			r.Begin(desc)
 			r.Eval(1)
 			before := rt.Snapshot()
@@ -150,7 +155,7 @@ func c20One(r *rt.Rec, text string, memo bool, chanSize, bulk int) {
 			el := time.Since(start)
 			fired := fs.Fired()
 			w := func() map[string]interface{} {
-				m := map[string]interface{}{"statement": text, "store": variant, "failing_call": k, "calls_in_clean_run": len(calls), "deliver_before_failing": plan.After, "late_return": plan.Late, "chan_size": chanSize, "bulk_size": bulk}
+				m := map[string]interface{}{"statement": text, "store": variant, "failing_call": k, "calls_in_clean_run": len(calls), "deliver_before_failing": plan.After, "late_return": plan.Late, "every_later_call_fails": plan.From > 0, "chan_size": chanSize, "bulk_size": bulk}
 				if fired != nil {
 					m["failed_method"] = fired.Method
 					m["failed_graph"] = fired.Graph
@@ -211,7 +216,7 @@ func init() {
 	register(&rt.Check{
 		ID:    "C20",
 		Level: "fault_enumeration",
-		Rule: "a corpus of statements that exercises every driver entry point (Exist, each of the eight lookups behind simpleFetch, Triples with clause-level filtering, per-row specialisation, OPTIONAL, Graph resolution in Init, INSERT/DELETE into 1-3 graphs, CONSTRUCT/DECONSTRUCT with and without reification at bulk sizes 1/2/1000, CREATE/DROP, SHOW GRAPHS; thorough adds generated statements) run over a fault-injecting storage.Store/Graph written in the harness; per statement a clean run records its N driver calls, then every position k<=N x mode {fail before any element, fail after 1, after 2 elements, after 1 element with the error returned some time after the channel was closed (lookups), fail on write / Graph / Exist} is executed, directly and with the memoizer stacked in between; " +
+		Rule: "a corpus of statements that exercises every driver entry point (Exist, each of the eight lookups behind simpleFetch, Triples with clause-level filtering, per-row specialisation, OPTIONAL, Graph resolution in Init, INSERT/DELETE into 1-3 graphs, CONSTRUCT/DECONSTRUCT with and without reification at bulk sizes 1/2/1000, CREATE/DROP, SHOW GRAPHS; thorough adds generated statements) run over a fault-injecting storage.Store/Graph written in the harness; per statement a clean run records its N driver calls, then every position k<=N x mode {fail before any element, fail after 1, after 2 elements, after 1 element with the error returned some time after the channel was closed (lookups), fail on write / Graph / Exist, this and every later call fail (from the first call and from every write)} is executed, directly and with the memoizer stacked in between; " +
 			"oracle: if the planned fault fired, Execute returns an error (not a table, not (nil,nil)), returns within the watchdog, and no goroutine started for it survives; a fault that did not fire is inconclusive; non-trivial = the fault fired after an earlier successful call or after >=1 delivered element; distinct by (statement, store, k, mode)",
 		Assume: []string{"the injecting wrapper behaves like a well-formed driver: it closes the channel exactly once and then returns the error", "bounded time = the per-case watchdog (all-blocked rule, 120 s hard)"},
 		Floor:  200,
